@@ -729,6 +729,10 @@ func (c *FnCtx) declP2() {
 		p128 := pow2(128).String()
 		fmt.Fprintf(&m, " (=> (<= n 0) (= (mulp2 x n) x)) (=> (= x 0) (= (mulp2 x n) 0)) (=> (and (> n 128) (> x 0)) (> (mulp2 x n) %s)) (=> (and (> n 128) (< x 0)) (< (mulp2 x n) (- %s)))", p128, p128)
 		fmt.Fprintf(&d, " (=> (<= n 0) (= (divp2 x n) x)) (=> (and (> n 128) (<= (- %s) x) (< x %s)) (= (divp2 x n) (ite (< x 0) (- 1) 0)))", p128, p128)
+		for _, w := range []int{8, 16, 32, 64} {
+			// shifting a w-bit value right by w or more leaves only the sign
+			fmt.Fprintf(&d, " (=> (and (>= n %d) (<= (- %s) x) (< x %s)) (= (divp2 x n) (ite (< x 0) (- 1) 0)))", w, pow2(w-1).String(), pow2(w).String())
+		}
 		m.WriteString(") :pattern ((mulp2 x n)))))")
 		d.WriteString(") :pattern ((divp2 x n)))))")
 		c.decls = append(c.decls, m.String(), d.String())
